@@ -260,6 +260,15 @@ func (s *ServantProxy) doInvoke(ctx context.Context, msg *Message, timeout time.
 		return err
 	}
 	if msg.Req.CPacketType == basef.TARSONEWAY {
+		if needCheck {
+			// a one-way call is all the outcome there is: the probe of a blocked endpoint
+			// succeeded when the request could be sent
+			go func() {
+				adp.reset()
+				ep := endpoint.Tars2endpoint(*msg.Adp.point)
+				s.manager.addAliveEp(ep)
+			}()
+		}
 		adp.successAdd()
 		return nil
 	}
